@@ -21,12 +21,15 @@ def check(p, t):
         return f"index function maps listed state {S[bad]} to row {int(t['own'][bad])}, not to its own row {bad}", 0
     pos = t["prob"] > 0
     nxt, idx = t["next"], t["idx"]
+    sel = t["sample_idx"] if "sample_idx" in t.files else np.arange(len(S))   # rows of the table = these states
+    if idx.min() < 0 or idx.max() >= len(S):
+        return "the index function returns a row number outside the state space", 0
     looked_up = st[idx]                       # state_space[state_to_index(successor)]
     mism = np.any(looked_up != nxt, axis=-1) & pos
     n = int(pos.sum())
     if mism.any():
         si, ai, ei = [int(x[0]) for x in np.nonzero(mism)]
-        return (f"positive-probability transition from state {S[si]} under action {A[ai]}, event {E[ei]} yields {nxt[si, ai, ei].tolist()}, "
+        return (f"positive-probability transition from state {S[int(sel[si])]} under action {A[ai]}, event {E[ei]} yields {nxt[si, ai, ei].tolist()}, "
                 f"which the index maps to row {int(idx[si, ai, ei])} = {st[idx[si, ai, ei]].tolist()} (out of range and clipped onto a different state)"), n
     return None, n
 
@@ -34,8 +37,8 @@ def check(p, t):
 def coq_item(p, t):
     """C19's model of the index function on this problem's state box: every listed state and every successor"""
     kind, P = p["kind"], PR.params_of(p["kind"], p["params"])
-    if kind == "forest":
-        return None
+    if kind == "forest" or p.get("sample"):
+        return None     # (large spaces: implementation-level predicate only; a 10^5-row enumeration is not evaluated inside Coq)
     st = t["states"]
     maxs = st.max(axis=0).tolist()
     mins = [0] * len(maxs)
@@ -46,7 +49,7 @@ def coq_item(p, t):
 
 
 def run(ctx, build):
-    probs = shipped.grid(ctx)
+    probs = shipped.grid(ctx) + shipped.large(ctx)
     tabs = shipped.tables(ctx, probs)
     corr, viols, items, meta = [], [], [], []
     total = 0
@@ -69,7 +72,7 @@ def run(ctx, build):
         for i in failing:
             corr.append({"what": "model index function / enumeration and the problem's state space disagree", "input": {"problem": meta[i]}})
     cov = {
-        "evaluations": total, "distinct_nontrivial": len({core.case_hash(p) for p, r, t in tabs if t is not None}), "problems": len(tabs),
+        "evaluations": total, "distinct_nontrivial": len({core.case_hash(p) for p, r, t in tabs if t is not None}), "problems": len(tabs), "state_space_sizes_above_65535": [int(r.get("nS", 0)) for p, r, t in tabs if p.get("sample")],
         "rule": "parameter grid of the four shipped problems; spaces compared with the documented sizes/content, no duplicate rows, index(state_i) = i for every listed state, "
                 "and state_space[state_to_index(successor)] == successor for EVERY positive-probability (state, action, event) of the complete table",
         "samples": [{"problem": p["kind"], "nS": int(r.get("nS", 0)), "nA": int(r.get("nA", 0)), "nE": int(r.get("nE", 0))} for p, r, t in tabs[:8]],
